@@ -7,7 +7,6 @@ import numpy as np
 
 from harness.common import frac, err_kind, deep_compare
 
-DISABLED = True
 PID = "C30"
 THEOREMS = [
     "PorepyVerif.C30.pt_pt_symm",
